@@ -47,7 +47,27 @@ MEMBER_GROUP = {m: g for g, ms in GROUPS.items() for m in ms}
 ANY = "<any value>"
 
 
-def op_strategy():
+class Cfg:
+    def __init__(self, name, msg, opts, groups, values, plain):
+        self.name, self.msg, self.opts, self.GROUPS, self.VALUES, self.PLAIN = name, msg, tuple(opts), groups, values, plain
+        self.MEMBER_GROUP = {m: g for g, ms in groups.items() for m in ms}
+
+
+SOLO_GROUPS = {"only": ["s_text"], "other": ["s_leaf"], "third": ["s_num"]}
+SOLO_VALUES = {"s_text": ("", ["x", "é"]), "s_leaf": ({}, [{"i": 3}, {"s": "q"}]), "s_num": (0, [5, -1])}
+CFGS = {
+    "default": Cfg("default", "Oneofs", (), GROUPS, VALUES, PLAIN),
+    # generated as pydantic dataclasses (oneof members become Optional fields guarded by a validator)
+    "pydantic": Cfg("pydantic", "Oneofs", ("pydantic_dataclasses",), GROUPS, VALUES, PLAIN),
+    # groups with a single member each
+    "solo": Cfg("solo", "Solo", (), SOLO_GROUPS, SOLO_VALUES, PLAIN),
+    "solo_pydantic": Cfg("solo_pydantic", "Solo", ("pydantic_dataclasses",), SOLO_GROUPS, SOLO_VALUES, PLAIN),
+}
+
+
+def op_strategy(cfg=None):
+    cfg = cfg or CFGS["default"]
+    GROUPS, VALUES, PLAIN, MEMBER_GROUP = cfg.GROUPS, cfg.VALUES, cfg.PLAIN, cfg.MEMBER_GROUP
     member = st.sampled_from(sorted(MEMBER_GROUP))
 
     def val_for(m):
@@ -69,7 +89,10 @@ def op_strategy():
         st.sampled_from(["copy", "deepcopy", "pickle"]).map(lambda k: {"op": k}),
         st.sampled_from(["bytes", "to_dict", "repr", "eq", "to_json", "len", "bool"]).map(lambda k: {"op": "observe", "what": k}),
     ]
-    multi = st.sampled_from(sorted(GROUPS)).flatmap(
+    big = [g for g in sorted(GROUPS) if len(GROUPS[g]) >= 2]
+    if not big:
+        return st.one_of(*ops)
+    multi = st.sampled_from(big).flatmap(
         lambda g: st.lists(st.sampled_from(GROUPS[g]), min_size=2, max_size=3, unique=True).flatmap(
             lambda ms: st.tuples(*[st.tuples(st.just(m), val_for(m)) for m in ms]))
     ).map(lambda t: {"op": "construct_multi", "members": [list(x) for x in t]})
@@ -79,18 +102,19 @@ def op_strategy():
 class Interp:
     """Applies operations to the real message and to the reference model; checks the invariant."""
 
-    def __init__(self):
+    def __init__(self, cfg=None):
         import betterproto
 
+        self.cfg = cfg = cfg or CFGS["default"]
         self.bp = betterproto
-        self.c = corpus()
+        self.c = corpus(opts=cfg.opts)
         self.schema = self.c.schema
-        self.cls = self.c.bp("Oneofs")
-        self.mi = self.schema.msg("ks.Oneofs")
+        self.cls = self.c.bp(cfg.msg)
+        self.mi = self.schema.msg("ks." + cfg.msg)
         self.info = BPInfo.of(self.cls)
         self.adapter = BPAdapter(self.schema)
         self.m = self.cls()
-        self.model = {g: None for g in GROUPS}  # group -> (member, tree value)
+        self.model = {g: None for g in self.cfg.GROUPS}  # group -> (member, tree value)
         self.others = []  # [(message, frozen model, how the successor was obtained)]
         self.switches = 0
         self.default_sets = 0
@@ -102,7 +126,7 @@ class Interp:
         return self.adapter.single(self.info.elem_class(fi), fi, v, False)
 
     def select(self, member, v):
-        g = MEMBER_GROUP[member]
+        g = self.cfg.MEMBER_GROUP[member]
         if self.model[g] is not None and self.model[g][0] != member:
             self.switches += 1
         self.model[g] = (member, v)
@@ -113,10 +137,10 @@ class Interp:
             kw = {m: self.py(m, v) for m, v in op["members"]}
             kw.update({f: v for f, v in op["plain"].items()})
             self.m = guard("construct", lambda: self.cls(**kw))
-            self.model = {g: None for g in GROUPS}
+            self.model = {g: None for g in self.cfg.GROUPS}
             for m, v in op["members"]:
-                self.model[MEMBER_GROUP[m]] = (m, v)
-                if v == VALUES[m][0]:
+                self.model[self.cfg.MEMBER_GROUP[m]] = (m, v)
+                if v == self.cfg.VALUES[m][0]:
                     self.default_sets += 1
         elif k == "construct_multi":
             kw = {m: self.py(m, v) for m, v in op["members"]}
@@ -124,8 +148,8 @@ class Interp:
                 self.m = self.cls(**kw)
             except Exception:  # rejecting >=2 members of one group is acceptable
                 return
-            g = MEMBER_GROUP[op["members"][0][0]]
-            self.model = {gg: None for gg in GROUPS}
+            g = self.cfg.MEMBER_GROUP[op["members"][0][0]]
+            self.model = {gg: None for gg in self.cfg.GROUPS}
             name = self.bp.which_one_of(self.m, g)[0]
             passed = {m: v for m, v in op["members"]}
             if name not in passed:
@@ -135,7 +159,7 @@ class Interp:
             m, v = op["member"], op["value"]
             guard("setattr", setattr, self.m, m, self.py(m, v))
             self.select(m, v)
-            if v == VALUES[m][0]:
+            if v == self.cfg.VALUES[m][0]:
                 self.default_sets += 1
         elif k == "set_plain":
             guard("setattr_plain", setattr, self.m, op["field"], copy.deepcopy(op["value"]))
@@ -148,12 +172,12 @@ class Interp:
             data = b"".join(r.raw for r in recs)
             if op["fresh"]:
                 self.m = guard("parse_fresh", self.cls().parse, data)
-                self.model = {g: None for g in GROUPS}
+                self.model = {g: None for g in self.cfg.GROUPS}
             else:
                 guard("parse_into", self.m.parse, data)
             seen = {}
             for m, v in op["records"]:
-                g = MEMBER_GROUP[m]
+                g = self.cfg.MEMBER_GROUP[m]
                 seen[g] = seen.get(g, 0) + 1
                 fi = self.mi.by_name(m)
                 prev = self.model[g]
@@ -179,7 +203,7 @@ class Interp:
             d = json.loads(json.dumps(d))
             if op["form"] == "class":
                 self.m = guard("from_dict_cls", self.cls.from_dict, d)
-                self.model = {g: None for g in GROUPS}
+                self.model = {g: None for g in self.cfg.GROUPS}
             else:
                 guard("from_dict_inst", self.m.from_dict, d)
             for m, v in op["members"]:
@@ -216,11 +240,11 @@ class Interp:
         try:
             b = guard("bytes", bytes, msg)
             recs = wire.parse_records(b)
-            ref = self.c.rf("Oneofs").FromString(b)
+            ref = self.c.rf(self.cfg.msg).FromString(b)
             dicts = {"camel": guard("to_dict_camel", msg.to_dict, bp.Casing.CAMEL), "snake": guard("to_dict_snake", msg.to_dict, bp.Casing.SNAKE)}
             from betterproto.casing import camel_case
 
-            for g, members in GROUPS.items():
+            for g, members in self.cfg.GROUPS.items():
                 sel = model[g]
                 name, val = guard("which_one_of", bp.which_one_of, msg, g)
                 if sel is None:
@@ -262,9 +286,9 @@ class Interp:
         return out
 
 
-def run_history(ops):
+def run_history(ops, cfg=None):
     """-> (failures [(clause, step_op, detail)], stats)"""
-    it = Interp()
+    it = Interp(cfg)
     fails = []
     for i, op in enumerate(ops):
         try:
@@ -280,7 +304,8 @@ def run_history(ops):
     return fails, it
 
 
-def _after(op):
+def _after(op, cfg=None):
+    VALUES = (cfg or CFGS["default"]).VALUES
     k = op["op"]
     if k == "set":
         return f"set:{op['member']}:{'default' if op['value'] == VALUES[op['member']][0] else 'value'}"
@@ -296,15 +321,21 @@ def _after(op):
 def targets(ctx):
     def ev(case):
         ops = case["ops"]
-        fails, it = run_history(ops)
-        fs = [Failure(cl, f"{cl}|after:{_after(op)}"[:200], f"history={ops!r:.900} :: {d}") for cl, op, d in fails]
+        cfg = CFGS[case.get("cfg", "default")]
+        tag = "" if cfg.name == "default" else f"{cfg.name}|"
+        fails, it = run_history(ops, cfg)
+        fs = [Failure(cl, f"{tag}{cl}|after:{_after(op, cfg)}"[:200], f"cfg={cfg.name} history={ops!r:.900} :: {d}") for cl, op, d in fails]
         nontrivial = it.switches >= 1 and (it.default_sets >= 1 or it.multi_parse >= 1)
         labs = [f"len:{min(len(ops) // 5 * 5, 30)}", f"switches:{min(it.switches, 5)}", f"default_sets:{min(it.default_sets, 3)}",
                 f"multi_parse:{min(it.multi_parse, 2)}"] + sorted({f"op:{o['op']}" for o in ops})
-        return Eval(fs, nontrivial=nontrivial, labels=labs)
+        return Eval(fs, nontrivial=nontrivial, labels=labs + [f"cfg:{cfg.name}"])
 
     max_len = 50 if ctx.thorough else 30
     strat = st.lists(op_strategy(), min_size=1, max_size=max_len).map(lambda ops: {"ops": ops})
+
+    def variant_strat():
+        return st.sampled_from(["pydantic", "solo", "solo_pydantic", "solo_pydantic"]).flatmap(
+            lambda name: st.lists(op_strategy(CFGS[name]), min_size=1, max_size=max_len).map(lambda ops: {"ops": ops, "cfg": name}))
 
     def stateful(ctx_, n, seed):
         from hypothesis import HealthCheck, Phase, seed as hseed, settings
@@ -350,5 +381,6 @@ def targets(ctx):
 
     return [
         Target("oneof_histories", ev, strategy=strat, quick=250, thorough=3000, time_quick=80),
+        Target("oneof_histories_variants", ev, strategy=variant_strat(), quick=120, thorough=2000, time_quick=80),
         Target("oneof_state_machine", ev, stateful=stateful, quick=40, thorough=400),
     ]
